@@ -382,7 +382,7 @@ fn jump_strategy() -> impl Strategy<Value = Jump> {
 	(0u8..18, any::<bool>(), -8i8..=8, 0u8..8).prop_map(|(op, backward, e, k)| Jump { op, backward, e, k })
 }
 
-fn geo_strategy() -> impl Strategy<Value = GeoCase> {
+pub fn geo_strategy() -> impl Strategy<Value = GeoCase> {
 	(0u8..5, proptest::collection::vec(jump_strategy(), 3), prop_oneof![Just(300u16), 250u16..262, Just(0u16)], 0u8..3, 0u8..4, prop_oneof![Just(3u16), 250u16..260, Just(65535u16)], -6i8..=6)
 		.prop_map(|(template, jumps, filler, switches, lead, local, size_e)| GeoCase { template, jumps, filler, switches, lead, local, size_e })
 }
